@@ -154,7 +154,7 @@ pub fn build(events: &[Event]) -> Model {
                 }
             }
             // read by mon::taint, not part of the stream model
-            Event::FoldUnclaimedLore { .. } | Event::FoldUnclaimedLoreByCause { .. } => {}
+            Event::FoldUnclaimedLore { .. } | Event::FoldUnclaimedLoreByCause { .. } | Event::FailedCallLeavesSentState { .. } => {}
         }
     }
     m
